@@ -138,9 +138,12 @@ impl<'a, T: Transport> Transferrer<'a, T> {
                                 let notified = notify.notified();
                                 tokio::pin!(notified);
                                 notified.as_mut().enable();
+                                // Only the copy we registered with will wake us: if it has given the
+                                // inode up meanwhile and another task has claimed it, its notice has
+                                // already been sent and a new one is in the map -- look again.
                                 let still_in_progress = {
                                     let map = self.hardlink_map.lock().unwrap();
-                                    matches!(map.get(&inode), Some(InodeState::InProgress(_)))
+                                    matches!(map.get(&inode), Some(InodeState::InProgress(current)) if Arc::ptr_eq(current, &notify))
                                 };
                                 if still_in_progress {
                                     notified.await;
